@@ -421,3 +421,46 @@ theorem parse_body (cmds : List Cmd) : ∀ (f : Nat) (s : MmlState) (k : Nat), S
       rw [e]
 
 end Ctrmml.Mml
+
+namespace Ctrmml.Mml
+open Ctrmml.Tables Ctrmml.Lexer Ctrmml.TrackBuilder
+open Ctrmml.MmlMeaning (Num Dur Acc Cmd Simple dotsBytes bodyBytes)
+
+theorem bodyBytes_length (cmds : List Cmd) (h : ∀ c ∈ cmds, Covered c) : cmds.length ≤ (bodyBytes cmds).length := by
+  induction cmds with
+  | nil => simp
+  | cons cmd cs ih =>
+    obtain ⟨c, r, hcr, _⟩ := covered_head cmd (h cmd (by simp))
+    have := ih (fun x hx => h x (by simp [hx]))
+    rw [bodyBytes_cons, hcr]
+    cases cs with
+    | nil => simp [sepBody]
+    | cons c2 cs' => simp only [sepBody, List.length_append, List.length_cons] at this ⊢; omega
+
+theorem lineNums_covered (line : Nat) (cmds : List Cmd) : ∀ col t, LineNums line col t cmds → ∀ c ∈ cmds, Covered c := by
+  induction cmds with
+  | nil => intro _ _ _ c hc; simp at hc
+  | cons cmd cs ih =>
+    intro col t h c hc
+    simp at hc
+    rcases hc with rfl | hc
+    · exact h.1
+    · exact ih _ _ h.2.2 c hc
+
+/-- `parse_mml_track` (with the fuel the model gives it) on the body of a canonical line -/
+theorem parse_track_body (cmds : List Cmd) (s : MmlState) (hs : Sane s) (hsuf : suffix s = bodyBytes cmds)
+    (hn : LineNums s.inp.line s.inp.lb.column (getTrack s) cmds) :
+    ∃ s', parseMmlTrack s = .ok () s' ∧ getTrack s' = lineTrack s.inp.line s.inp.lb.column (getTrack s) cmds := by
+  unfold parseMmlTrack
+  rw [bind_ok (getS_run s)]
+  have hlen := bodyBytes_length cmds (lineNums_covered _ cmds _ _ hn)
+  have hfuel : cmds.length + 1 ≤ trackFuel s := by
+    have h1 := suffix_length s
+    rw [hsuf] at h1
+    unfold trackFuel
+    have := hs.inl
+    omega
+  have := parse_body cmds (trackFuel s) s 0 hs (by simpa using hsuf) (by simpa using hn) hfuel
+  simpa using this
+
+end Ctrmml.Mml
